@@ -163,6 +163,11 @@ class Model(object):
     # dispatch
     # ======================================================================
     def apply(self, op):
+        if op.get('defect') == 'schema':
+            # the document violates the published JSON schema of the route:
+            # 400, nothing changes (the generator breaks otherwise valid
+            # requests only, so this is the single reason for rejection)
+            return Expect(400)
         m = op['m']
         path = op['p']
         v = ver(op.get('v') or '1.0')
